@@ -9,7 +9,7 @@ from contracts import c_index, c_step, c_blocks
 
 # label prefix -> properties that claim it
 OWNERS = [
-    ("digital_rf_write_rf_data_index.rebase_unbounded", ("C06", "C01")),
+    ("digital_rf_write_rf_data_index.rebase_unbounded", ("C06", "C01", "C19", "C05")),
     ("bounds.digital_rf_write_rf_data_index.rebase_unbounded", ("C06", "C01")),
     ("nowrap.digital_rf_write_rf_data_index.rebase_unbounded", ("C06", "C01")),
     ("digital_rf_create_rf_data_index.T_unbounded", ("C04", "C06", "C19", "C01")),
@@ -35,7 +35,7 @@ OWNERS = [
     ("digital_rf_get_global_sample", ("C01", "C06", "C19", "C05")),
     ("nowrap.digital_rf_get_global_sample", ("C01",)),
     ("bounds.digital_rf_get_global_sample", ("C01",)),
-    ("digital_rf_write_rf_data_index", ("C06", "C01")),
+    ("digital_rf_write_rf_data_index", ("C06", "C01", "C19", "C05")),     # the cursor after a step is computed from the rebased last row
     ("nowrap.digital_rf_write_rf_data_index", ("C06",)),
     ("bounds.digital_rf_write_rf_data_index", ("C06",)),
     ("L-index-post", ("C01", "C06", "C19")),
